@@ -680,6 +680,35 @@ def install():
     logging.disable(logging.CRITICAL)
 
 
+class RecordingZlibModule(object):
+    """replay mode: the REAL zlib, with the window-bits arguments of every (de)compressobj recorded so that the
+    reference peer can check the API use (the window a deflater was created with is not observable otherwise)"""
+    Z_DEFAULT_COMPRESSION = _zlib.Z_DEFAULT_COMPRESSION
+    DEFLATED = _zlib.DEFLATED
+    Z_SYNC_FLUSH = _zlib.Z_SYNC_FLUSH
+    MAX_WBITS = _zlib.MAX_WBITS
+    error = _zlib.error
+
+    @staticmethod
+    def compressobj(*a, **k):
+        w = World.cur
+        if w is not None:
+            w.notes.setdefault('zlib_real', dict(compress_wbits=[], decompress_wbits=[]))['compress_wbits'].append(
+                a[2] if len(a) > 2 else k.get('wbits', 15))
+        return _zlib.compressobj(*a, **k)
+
+    @staticmethod
+    def decompressobj(*a, **k):
+        w = World.cur
+        if w is not None:
+            w.notes.setdefault('zlib_real', dict(compress_wbits=[], decompress_wbits=[]))['decompress_wbits'].append(
+                a[0] if a else k.get('wbits', 15))
+        return _zlib.decompressobj(*a, **k)
+
+    def __getattr__(self, name):
+        return getattr(_zlib, name)
+
+
 def install_pristine():
     """replay mode: the real, un-instrumented package with only the environment replaced"""
     import sys
@@ -700,6 +729,8 @@ def install_pristine():
     lomond.frame.make_masking_key = lambda: fake_urandom(4)
     lomond.mask.make_masking_key = lambda: fake_urandom(4)
     lomond.persist.random = fake_random
+    import lomond.compression
+    lomond.compression.zlib = RecordingZlibModule()
 
 
 def os_path_parent(p):
